@@ -273,8 +273,11 @@ class IrSem:
                 if k == "CJump":
                     a = self.value(ins.a, env)
                     b = self.value(ins.b, env)
-                    c = self.compare(ins.cond, a, b, ins.a.ty)
-                    nxt = ins.lab_yes if _decide(c) else ins.lab_no
+                    if ins.lab_yes is ins.lab_no:
+                        nxt = ins.lab_yes       # both edges lead to the same block: nothing to decide
+                    else:
+                        c = self.compare(ins.cond, a, b, ins.a.ty)
+                        nxt = ins.lab_yes if _decide(c) else ins.lab_no
                     break
                 self.step(ins, k, env, depth)
             if nxt is None:
